@@ -334,17 +334,19 @@ def build_real(prog, log, calls, source_kwargs=None, fn_wrap=None):
         elif op == 'partition':
             kw = {}
             if spec.get('key') is not None:
-                kw['key'] = _realkey(spec['key'])
+                k = _realkey(spec['key'])
+                kw['key'] = fw(nid, 'key', k) if callable(k) else k
             if spec.get('timeout') is not None:
                 kw['timeout'] = spec['timeout']
             n = ups[0].partition(spec['n'], **kw)
         elif op == 'partition_unique':
-            n = ups[0].partition_unique(spec['n'], key=_realkey(spec.get('key', 'ident')),
+            k = _realkey(spec.get('key', 'ident'))
+            n = ups[0].partition_unique(spec['n'], key=fw(nid, 'key', k) if callable(k) else k,
                                         keep=spec.get('keep', 'first'))
         elif op == 'sliding_window':
             n = ups[0].sliding_window(spec['n'], return_partial=spec.get('partial', True))
         elif op == 'unique':
-            n = ups[0].unique(maxsize=spec.get('maxsize'), key=F.KEYS[spec.get('key', 'ident')],
+            n = ups[0].unique(maxsize=spec.get('maxsize'), key=fw(nid, 'key', F.KEYS[spec.get('key', 'ident')]),
                               hashable=spec.get('hashable', True))
         elif op == 'flatten':
             n = ups[0].flatten()
